@@ -1100,6 +1100,12 @@ StylesheetExecutionContextDefault::beginCreateXResultTreeFrag(XalanNode*    sour
     theFormatter->startDocument();
 
     pushCurrentNode(sourceNode);
+
+    // The fragment is a tree of its own: any kind of node can go into
+    // it, also when the variable stands in the content of xsl:comment,
+    // xsl:processing-instruction or xsl:attribute, where only text
+    // nodes are wanted.
+    pushCopyTextNodesOnly(false);
 }
 
 
@@ -1124,6 +1130,7 @@ StylesheetExecutionContextDefault::endCreateXResultTreeFrag()
 
     theXResultTreeFrag->setExecutionContext(this);
 
+    popCopyTextNodesOnly();
     popCurrentNode();
     popOutputContext();
 
